@@ -3,6 +3,7 @@
 package dirsrc
 
 import (
+	"bytes"
 	"fmt"
 	"os"
 	"path/filepath"
@@ -56,6 +57,27 @@ func feedOf(i int) jrn.Feed {
 	return f
 }
 
+func isGood(kind string) bool { return kind == "good" || kind == "goodT" || kind == "goodR" }
+
+// goodBytes is the content of a good file. goodT files all carry the same header timestamp; goodR files are the same
+// message with the entity fields serialised before the header field.
+func goodBytes(e Entry) []byte {
+	f := feedOf(e.Name)
+	switch e.Kind {
+	case "goodT":
+		f.T = 5
+		return jrn.FeedBytes(f)
+	case "goodR":
+		all := jrn.FeedBytes(f)
+		hdr := jrn.FeedBytes(jrn.Feed{T: f.T})
+		if !bytes.HasPrefix(all, hdr) {
+			panic("harness: header is not a prefix of the message")
+		}
+		return append(append([]byte(nil), all[len(hdr):]...), hdr...)
+	}
+	return jrn.FeedBytes(f)
+}
+
 type Pop struct {
 	Name    int    `json:"name"`
 	Outcome string `json:"outcome"`
@@ -76,6 +98,18 @@ type Record struct {
 	DirectContent   abs.Seq[Content]   `json:"directContent"`
 	JournalFromDir  abs.Seq[jrn.Entry] `json:"journalFromDir"`
 	JournalFromGood abs.Seq[jrn.Entry] `json:"journalFromGood"`
+}
+
+func firstStop(r *gtfs.Realtime) int {
+	for _, t := range r.Trips {
+		if t.ID.ID == jrn.TripIDString(1, 1) && len(t.StopTimeUpdates) > 0 && t.StopTimeUpdates[0].StopID != nil {
+			var n int
+			if _, err := fmt.Sscanf(*t.StopTimeUpdates[0].StopID, jrn.StopPfx+"%d", &n); err == nil {
+				return n
+			}
+		}
+	}
+	return -1
 }
 
 func content(r *gtfs.Realtime) Content {
@@ -101,12 +135,12 @@ func materialise(dir string, entries []Entry, onlyGood bool) (vanish []string, e
 			return nil, fmt.Errorf("name index %d out of range", e.Name)
 		}
 		p := filepath.Join(dir, names[e.Name-1])
-		good := jrn.FeedBytes(feedOf(e.Name))
-		if onlyGood && e.Kind != "good" {
+		good := goodBytes(e)
+		if onlyGood && !isGood(e.Kind) {
 			continue
 		}
 		switch e.Kind {
-		case "good":
+		case "good", "goodT", "goodR":
 			err = os.WriteFile(p, good, 0o644)
 		case "vanish":
 			err = os.WriteFile(p, good, 0o644)
@@ -195,8 +229,8 @@ func Run(id string, c Case, scratch string, w *abs.Writer) (crashes []jrn.Crash,
 			if r == nil {
 				break
 			}
-			// identify the file by its unique header timestamp
-			rec.Yields = append(rec.Yields, int(r.CreatedAt.Unix()-jrn.Base)/10)
+			// identify the file by its content: the first stop of its first trip is S<name index>
+			rec.Yields = append(rec.Yields, firstStop(r))
 			rec.YieldedContent = append(rec.YieldedContent, content(r))
 		}
 		for n := 0; n < 3; n++ {
@@ -213,10 +247,10 @@ func Run(id string, c Case, scratch string, w *abs.Writer) (crashes []jrn.Crash,
 	}
 	// what a direct parse of each good file gives, in name order
 	for _, e := range c.Entries { // entries arrive sorted by name from the spec
-		if e.Kind != "good" {
+		if !isGood(e.Kind) {
 			continue
 		}
-		r, err := gtfs.ParseRealtime(jrn.FeedBytes(feedOf(e.Name)), &gtfs.ParseRealtimeOptions{
+		r, err := gtfs.ParseRealtime(goodBytes(e), &gtfs.ParseRealtimeOptions{
 			Extension: nycttrips.Extension(nycttrips.ExtensionOpts{FilterStaleUnassignedTrips: true}),
 		})
 		if err != nil {
